@@ -103,6 +103,14 @@ def recipes(draw):
         r['unit'] = draw(st.booleans())
         r['npm'] = d + draw(st.integers(1, 10))
         r['ops'] = ['split'] * draw(st.integers(1, 6))
+        if draw(st.integers(0, 2)) == 0:
+            # a union whose volume was read (proposals drawn, counters
+            # running) and that then lost its lowest-density member: the
+            # reported volume and the proposals afterwards must describe the
+            # remaining members only
+            r['ops'] = r['ops'] + ['log_v', draw(st.sampled_from(
+                ['trim_lo', 'trim_hi'])), draw(st.sampled_from(
+                    ['sample', 'log_v']))]
         if 'small' in spec:
             r['ops'] = ['split']
             r['enlarge'] = 1.2
@@ -259,6 +267,7 @@ def uniformity_and_volume(b, frame_members, to_frame, from_frame, unit, d,
                                  1e-300)
     res.count('volume-tests')
     info = dict(p=p, G=G, df=df, z=float(z), v_rep=v_rep, v_mc=v_mc,
+                var_mc=var_mc,
                 overlap=float(np.mean(mr >= 2)), n_ref=int(n_acc),
                 accept_box=p_hat, outside_members=int(np.sum(ms == 0)))
     return p, float(z), info
@@ -371,6 +380,20 @@ def run_case(r):
             sample = (lambda n: b.sample(n, pool=pool))
         res.cls('members>=2', len(members) >= 2)
         tag = '%s:%s' % (cls, r['mode'])
+        # the volume as reported in the state the recipe left the bound in
+        # (after splits / a trim / a round trip), before the draws of the
+        # uniformity test dilute its counters
+        try:
+            v0 = float(np.exp(b.log_v))
+            var0 = reported_variance(b, v0)
+            acc0 = int(b.n_sample - b.n_reject)
+        except Exception as e:
+            res.viol('raises', '%s:%s' % (tag, type(e).__name__), repr(e))
+            return res
+
+        def z_built(inf):
+            return float((v0 - inf['v_mc']) / np.sqrt(
+                inf['var_mc'] + var0 + (1e-9 * inf['v_mc']) ** 2 + 1e-300))
         try:
             p, z, info = uniformity_and_volume(
                 b, members, to_frame, from_frame, unit, d, sample,
@@ -390,7 +413,13 @@ def run_case(r):
         res.nontrivial = info['overlap'] >= 0.01 or cube_cut >= 0.01
         bad_p = p < P_MIN
         bad_z = abs(z) > 6.1
-        if bad_p or bad_z:
+        # (applied when the reported estimate rests on >= 100 accepted
+        # proposals, so that its binomial error is close to normal)
+        bad_z0 = acc0 >= 100 and abs(z_built(info)) > 6.1
+        res.count('as-built-volume-tests', int(acc0 >= 100))
+        res.cls('trimmed', 'trim_lo' in r.get('ops', []) or
+                'trim_hi' in r.get('ops', []))
+        if bad_p or bad_z or bad_z0:
             # confirmation with fresh draws and 4x the sample
             res.cls('confirmation_run')
             p2, z2, info2 = uniformity_and_volume(
@@ -401,6 +430,13 @@ def run_case(r):
                          '(G=%.1f df=%d, overlap %.3f)' % (
                              p, p2, info2['G'], info2['df'],
                              info2['overlap']))
+            if bad_z0 and z2 is not None and abs(z_built(info2)) > 6.1:
+                res.viol('volume-miscalibrated', tag + ':as-built',
+                         'z=%.1f then %.1f against two independent Monte '
+                         'Carlo references: reported %.6g right after '
+                         'construction (ops %s), Monte Carlo %.6g' % (
+                             z_built(info), z_built(info2), v0,
+                             r.get('ops'), info2['v_mc']))
             if bad_z and z2 is not None and abs(z2) > 6.1:
                 res.viol('volume-miscalibrated', tag, 'z=%.1f then %.1f: '
                          'reported %.6g, Monte Carlo %.6g' % (
